@@ -6,10 +6,12 @@
 (* renamed lineage and compare them.                                        *)
 EXTENDS MCGen
 
-Kinds == {"v1", "v2", "v2q", "v3", "v4", "v0"}
+\* (vBx: a build that has its own, unrelated type under the name a later version chose
+\* for the rename - it declares no rename and must not take the lineage's errors for its own)
+Kinds == {"v1", "v2", "v2q", "v3", "v4", "v0", "vBx"}
 \* types a build links, its local type, the renames it declares
 TysOf(k) == CASE k = "v1" -> <<"uRenA">> [] k = "v2" -> <<"uRenB">> [] k = "v2q" -> <<"uRenQ">>
-              [] k = "v3" -> <<"uRenC">> [] k = "v4" -> <<"uRenD">> [] OTHER -> <<>>
+              [] k = "v3" -> <<"uRenC">> [] k = "v4" -> <<"uRenD">> [] k = "vBx" -> <<"uRenB">> [] OTHER -> <<>>
 Decl(k) == CASE k = "v2" -> {<<"uRenA", "uRenB">>} [] k = "v2q" -> {<<"uRenA", "uRenQ">>}
              [] k = "v3" -> {<<"uRenA", "uRenB">>, <<"uRenB", "uRenC">>}
              [] k = "v4" -> {<<"uRenA", "uRenB">>, <<"uRenB", "uRenC">>, <<"uRenC", "uRenD">>} [] OTHER -> {}
@@ -25,11 +27,13 @@ MStep(op, n, dst, src, s, a) == Step(op, dst, src, s, a, E, n, E)
 ScenarioPos == Cardinality({i \in 1..Len(hist) : hist[i].op \in {"MkLocal", "Xfer", "Probe"}})
 LinksTy(p) == procs.tys[p] # {}
 LocalTy(p) == CHOOSE t \in procs.tys[p] : TRUE
+\* the build links a type of the lineage (vBx links an unrelated type of the same name)
+Lin(p) == LinksTy(p) /\ KindOf(p) # "vBx"
 
 CONSTANT Dup    \* TRUE: also try to register an already registered target again
 
-Src3 == IF LinksTy(3) THEN 3 ELSE 2
-ScenarioDone == Ready /\ (~LinksTy(1) \/ ScenarioPos >= 8 \/ (ScenarioPos = 3 /\ ~LinksTy(Src3)))
+Src3 == IF Lin(3) THEN 3 ELSE 2
+ScenarioDone == Ready /\ (~Lin(1) \/ ScenarioPos >= 8 \/ (ScenarioPos = 3 /\ ~Lin(Src3)))
 FinishM == ScenarioDone /\ ~fin /\ fin' = TRUE /\ UNCHANGED <<slots, net, reg, taint, procs, gor, hist, nw>>
 
 MNext ==
@@ -57,13 +61,13 @@ MNext ==
            /\ \E p \in 1..NProcs : \E d \in Decl(KindOf(p)) : TakeM(MStep("RegMig", p, 1, E, d, E))
         \/ \* 3. the scenario: an error built at 1 travels 1 -> 2 -> 3; an equal one is
            \*    built at 3 (at 2 and sent on, when 3 does not link the type); both compared at 3
-           /\ Ready /\ LinksTy(1)
+           /\ Ready /\ Lin(1)
            /\ LET pos == ScenarioPos
-                  src3 == IF LinksTy(3) THEN 3 ELSE 2 IN
+                  src3 == IF Lin(3) THEN 3 ELSE 2 IN
               CASE pos = 0 -> TakeM(MStep("MkLocal", 1, 1, E, <<"w1">>, <<<<LocalTy(1)>>>>))
                 [] pos = 1 -> TakeM(MStep("Xfer", 12, 1, <<1>>, E, E))
                 [] pos = 2 -> TakeM(MStep("Xfer", 23, 1, <<1>>, E, E))
-                [] pos = 3 -> LinksTy(src3) /\ TakeM(MStep("MkLocal", src3, 2, E, <<"w1">>, <<<<LocalTy(src3)>>>>))
+                [] pos = 3 -> Lin(src3) /\ TakeM(MStep("MkLocal", src3, 2, E, <<"w1">>, <<<<LocalTy(src3)>>>>))
                 [] pos = 4 -> IF src3 = 3 THEN TakeM(MStep("Probe", 3, 1, E, E, E))
                               ELSE TakeM(MStep("Xfer", 23, 2, <<2>>, E, E))
                 [] pos = 5 -> TakeM(MStep("Probe", 3, 1, E, E, E))
@@ -80,7 +84,7 @@ InvC17 ==
        \A p \in 1..NProcs : Pending(p) = {} => \A t \in DOMAIN procs.migs[p] : procs.migs[p][t] = "uRenA"
   /\ \A i, j \in 1..NSlots :
        (~IsNil(slots[i]) /\ ~IsNil(slots[j]) /\ procs.own[i] = procs.own[j] /\ Pending(procs.own[i]) = {}
-        /\ Len(hist) >= NProcs)
+        /\ Len(hist) >= NProcs /\ KindOf(procs.own[i]) # "vBx")
        => (IsIn(slots[i], slots[j], procs.own[i], procs) <=> slots[i].s = slots[j].s)
 
 
